@@ -82,10 +82,11 @@ func (g *gen) pick(l []string) string { return l[g.r.Intn(len(l))] }
 var namePool = []string{"v", "ver", "verbose", "version", "V", "f", "file", "force", "o", "out", "output", "é", "日本",
 	"x", "y", "z", "n", "num", "name", "l", "list", "m", "map", "i", "int", "inc", "fl", "float", "deb", "debug", "dbg",
 	"q", "quiet", "a", "ab", "abc", "t", "tag", "p", "profile", "é1", "ñ", "ü", "日本語設定", "h", "?",
-	"🚀", "🔥hot", "label-😀", "color", "no-color", "no-v"}
+	"🚀", "🔥hot", "label-😀", "color", "no-color", "no-v",
+	"he", "hel", "host", "header", "4", "6", "0", "pro", "prof"}
 
 var cmdPool = []string{"cmd", "run", "list", "show", "exec", "wrap", "sub", "get", "set", "c", "v", "file", "log", "db", "helper",
-	"añadir", "删除", "é", "🚀go"}
+	"añadir", "删除", "é", "🚀go", "logs", "rm", "rmdir"}
 
 // names long enough for one synopsis entry to exceed a whole help line
 var longPool = []string{"kubernetes-control-plane-version-to-upgrade-to", "a-really-quite-long-option-name-for-the-synopsis-line",
@@ -191,7 +192,8 @@ func (g *gen) genOpt(pi *progInfo, n *nodeInfo, used map[string]bool, env *[]Env
 			case KInts:
 				op.InitIS = [][]int{{7}, {1, 2}, {-3, 0, 42}}[g.r.Intn(3)]
 			case KMap:
-				op.InitM = [][][2]string{{{"os", "linux"}}, {{"a", "1"}, {"b", "2"}, {"c", "3"}}, {{"K", "V"}, {"k", "v"}}}[g.r.Intn(3)]
+				op.InitM = [][][2]string{{{"os", "linux"}}, {{"a", "1"}, {"b", "2"}, {"c", "3"}}, {{"K", "V"}, {"k", "v"}},
+					{{"Key", "1"}, {"KEY", "2"}, {"kEy", "3"}}}[g.r.Intn(4)]
 			}
 		}
 	}
@@ -250,7 +252,8 @@ func (g *gen) genOpt(pi *progInfo, n *nodeInfo, used map[string]bool, env *[]Env
 			}
 		}
 		if !have && g.p(0.8) {
-			vals := []string{"true", "false", "TRUE", "False", "tRuE", "yes", "1", "", "12", "-7", "1.5", "abc", "falſe", "12x", "0x10", "1e400", " true", "é"}
+			vals := []string{"true", "false", "TRUE", "False", "tRuE", "yes", "1", "", "12", "-7", "1.5", "abc", "falſe", "12x", "0x10", "1e400", " true", "é",
+				" ", "\t", " x ", "010", "0755", "1_000", "0b101", "+7", "-0", "false\n"}
 			*env = append(*env, EnvKV{K: en, V: g.pick(vals)})
 		}
 	}
@@ -348,6 +351,10 @@ func (g *gen) genProgram(c *Case) *progInfo {
 	}
 	if g.p(0.08) {
 		script = append(script, DefOp{Op: "argfn", H: 0, N: g.r.Intn(3)})
+		if g.p(0.4) {
+			// a second ArgCompletionsFns call on the same command: the functions accumulate
+			script = append(script, DefOp{Op: "argfn", H: 0, N: g.r.Intn(3)})
+		}
 	}
 	if g.p(0.15) {
 		script = append(script, DefOp{Op: "synarg", H: 0, Name: []string{"<file>", "", "<é>"}[g.r.Intn(3)], Desc: []string{"", "the file", "a\nb"}[g.r.Intn(3)]})
@@ -443,6 +450,9 @@ func (g *gen) genProgram(c *Case) *progInfo {
 				}
 				if g.p(0.05) {
 					script = append(script, DefOp{Op: "argfn", H: h, N: g.r.Intn(3)})
+					if g.p(0.4) {
+						script = append(script, DefOp{Op: "argfn", H: h, N: g.r.Intn(3)})
+					}
 				}
 				if (depth < 2 || (pi.big && depth < 3)) && g.p(0.3) || (pi.deep && depth < 4 && i == nc-1) {
 					addCmds(n, depth+1)
@@ -510,7 +520,7 @@ func (g *gen) valueFor(oi *optInfo, valid bool) string {
 		}
 	case KFlt, KFltOpt, KFlts:
 		if valid || g.p(0.6) {
-			return []string{"1.5", "2", "-0.25", "1e3", "0.1", "NaN", "inf", "-Inf", "0x1p-2", "1_0", ".5", "5."}[g.r.Intn(12)]
+			return []string{"1.5", "2", "-0.25", "1e3", "0.1", "NaN", "inf", "-Inf", "0x1p-2", "1_0", ".5", "5.", "-0", "-00", "-0.0", "+1"}[g.r.Intn(16)]
 		}
 	case KMap:
 		if valid || g.p(0.7) {
@@ -624,6 +634,11 @@ func (g *gen) genArgsAt(pi *progInfo) ([]string, *nodeInfo) {
 			n = len(args) + 1 + g.r.Intn(4)
 		}
 		w := g.r.Float64() * (6 + g.f.Unknown + g.f.DashDash + g.f.Bytes)
+		if len(args) > 0 && g.p(0.06) {
+			// the same token again (`-v -v`, a repeated unknown option, a doubled value)
+			args = append(args, args[len(args)-1])
+			continue
+		}
 		switch {
 		case w < 3.2 && len(cur.opts) > 0: // known option
 			oi := cur.opts[g.r.Intn(len(cur.opts))]
